@@ -1135,12 +1135,13 @@ pub struct ScriptedLocal {
     wi: usize,
     woff: usize,
     flushes: u8,
+    poisoned: bool,
 }
 
 impl ScriptedLocal {
     pub fn new(spec: BridgeSpec, log: Log, parking: Parking) -> Self {
         let stream = spec.stream as usize;
-        ScriptedLocal { spec, log, parking, stream, ri: 0, chunk_left: 0, chunk_buf: vec![], roff: 0, wi: 0, woff: 0, flushes: 0 }
+        ScriptedLocal { spec, log, parking, stream, ri: 0, chunk_left: 0, chunk_buf: vec![], roff: 0, wi: 0, woff: 0, flushes: 0, poisoned: false }
     }
     fn wait(&self, n: u8, cx: &mut std::task::Context<'_>) -> bool {
         let mut g = self.parking.0.borrow_mut();
@@ -1261,8 +1262,14 @@ impl AsyncWrite for ScriptedLocal {
             let want = pay(me.stream, dir, me.woff + i);
             if *b != want {
                 me.log.app(AppEv::DataMismatch { stream: me.stream, end, offset: me.woff + i, got: *b, want });
+                // the verdict is settled (the oracles report the mismatch); a bridge that offers the same bytes again and again
+                // inside one poll would otherwise spin the harness for ever: from now on the local side refuses everything
+                me.poisoned = true;
                 break;
             }
+        }
+        if me.poisoned {
+            return Poll::Ready(Err(std::io::Error::new(std::io::ErrorKind::Other, "harness: local side closed after a content mismatch")));
         }
         me.woff += n;
         if n > 0 {
